@@ -827,6 +827,15 @@ def native_getattr(it, obj, name):
     if tbl is not None and name in tbl:
         f = tbl[name]
         return Builtin(f"{type(obj).__name__}.{name}", lambda *a, **k: f(it, obj, *a, **k))
+    # A method this interpreter does not model is NOT a missing attribute: only what the real Python type lacks raises
+    # AttributeError; anything else is outside the modelled subset (undecided, never a verdict about the code).
+    import collections as _c
+    real = (list if isinstance(obj, list) else dict if isinstance(obj, dict) else str if isinstance(obj, (str, SStr)) else
+            (bytearray if getattr(obj, "mutable", False) else bytes) if isinstance(obj, (BytesVal, ABytes)) else set if isinstance(obj, SetVal) else
+            _c.deque if isinstance(obj, DequeVal) else tuple if isinstance(obj, tuple) else bool if isinstance(obj, (bool, SBool)) else
+            int if isinstance(obj, (int, SInt, SBV)) else float if isinstance(obj, (float, SReal)) else None)
+    if real is not None and hasattr(real, name):
+        raise Unsupported(f"{real.__name__}.{name} is not modelled by the interpreter")
     raise it.exc("AttributeError", f"{type(obj).__name__} has no attribute {name}")
 
 
@@ -1107,6 +1116,29 @@ def _bytes_split(it, b, sep=None, maxsplit=-1):
     return parts
 
 
+def _bytes_partition(it, b, sep, right=False):
+    """bytes.partition / rpartition with a concrete one-byte separator (forks on the position of the first / last hit)."""
+    if not isinstance(sep, BytesVal) or not sep.is_concrete() or len(sep.items) != 1:
+        raise Unsupported("bytes.partition with a symbolic / multi-byte separator")
+    s = sep.items[0]
+    items = b.items
+    order = range(len(items) - 1, -1, -1) if right else range(len(items))
+    for i in order:
+        if it.path.branch(eq(items[i], s)):
+            return (BytesVal(items[:i], b.mutable), BytesVal([s], b.mutable), BytesVal(items[i + 1:], b.mutable))
+    empty = BytesVal([], b.mutable)
+    return (empty, BytesVal([], b.mutable), BytesVal(list(items), b.mutable)) if right else (BytesVal(list(items), b.mutable), empty, BytesVal([], b.mutable))
+
+
+def _bytes_find(it, b, sub, *a):
+    if a or not isinstance(sub, BytesVal) or not sub.is_concrete() or len(sub.items) != 1:
+        raise Unsupported("bytes.find with bounds / a symbolic or multi-byte pattern")
+    for i, x in enumerate(b.items):
+        if it.path.branch(eq(x, sub.items[0])):
+            return i
+    return -1
+
+
 def _bytes_hex(it, b, *a, **k):
     if b.is_concrete():
         return b.to_bytes().hex(*a, **k)
@@ -1166,6 +1198,9 @@ def _bytes_strip(it, b, chars=None):
 _BYTES = {
     "decode": _bytes_decode,
     "split": _bytes_split,
+    "partition": _bytes_partition,
+    "rpartition": lambda it, b, sep: _bytes_partition(it, b, sep, right=True),
+    "find": _bytes_find,
     "hex": _bytes_hex,
     "extend": _bytes_extend,
     "append": _bytes_append,
